@@ -489,6 +489,8 @@ def _collect_unit_once(unit, vacuity, isolate):
 
 
 P256_CORE = {'name': 'core-p256', 'build': 'core', 'flags': ['--cfg', 'feature="p256"'], 'prefixes': None, 'trusted': 'trusted.txt', 'confirm': True}
+PARSER_EXT = {'name': 'parser-ext', 'build': 'parser', 'flags': ['--cfg', 'feature="p256"', '--cfg', 'feature="use-xchacha20poly1305"'], 'prefixes': PARSER_FNS,
+              'trusted': os.path.join('parser', 'trusted.txt'), 'confirm': True}
 
 
 def collect(vacuity=False, tier='quick'):
@@ -497,7 +499,7 @@ def collect(vacuity=False, tier='quick'):
     units = [collect_unit(u, vacuity=vacuity) for u in UNITS]
     confirm = []
     if tier == 'thorough' and not vacuity:
-        confirm = [collect_unit(P256_CORE, vacuity=False)]
+        confirm = [collect_unit(P256_CORE, vacuity=False), collect_unit(PARSER_EXT, vacuity=False)]
     res = {'units': units, 'funcs': {}, 'errors': [], 'cache_hit': all(u['cache_hit'] for u in units),
            'wall_s': sum(u['wall_s'] for u in units), 'verified': sum(u['verified'] for u in units), 'nerrors': sum(u['nerrors'] for u in units),
            'ex': units[0]['ex'], 'model': units[0]['model']}
